@@ -116,7 +116,7 @@ impl Mw for Adapter {
             }
         }
         let fut = svc.call(req);
-        Some(Box::pin(async move { render(fut.await) }))
+        Some(held(fut, render))
     }
     fn yields(&self) -> usize {
         8
